@@ -25,7 +25,7 @@ for d in sorted(glob.glob(os.path.join(HERE, 'seeded', 'C*-m*'))):
         if ap.returncode:
             results[name] = {'applies': False, 'repo_head': head}
             continue
-        env = dict(os.environ, VERIF_REPO=wt, VERIF_REPLAY_DIR=tmp + '/replays')
+        env = dict(os.environ, VERIF_REPO=wt, VERIF_REPLAY_DIR=tmp + '/replays', VERIF_SHRINK_BUDGET='0')
         p = subprocess.run([os.path.join(HERE, 'check'), pid, '--no-evidence'], capture_output=True, text=True, env=env, cwd=HERE)
         subs = sorted(set(re.findall(r'^violation in %s/(\w+):' % pid, p.stdout, re.M)))
         first = re.search(r'^violation in .*$', p.stdout, re.M)
